@@ -27,7 +27,7 @@ import (
 
 func TestMain(m *testing.M) {
 	vcore.Init("C07", "exploration",
-		"after a drawn valid prefix (associate, establish 1-3 sessions with rich rules, one witness session of another node): (1) structure-aware: a valid message of every type go-upf accepts (Heartbeat, Association Setup/Update/Release, PFD Management, Node Report, Session Set Deletion, "+
+		"after a drawn valid prefix (associate, establish 1-3 sessions with rich rules, one witness session of another node; in half of the cases with live sessions 1-3 Session Report Requests of the UPF's own are left waiting, and response datagrams - Session Report Response in several forms, and response types the UPF never waits for - carry their sequence numbers from the node's socket, so that mutated responses reach the response handler): (1) structure-aware: a valid message of every type go-upf accepts (Heartbeat, Association Setup/Update/Release, PFD Management, Node Report, Session Set Deletion, "+
 			"Session Establishment / Modification / Deletion Request, Session Report Response) is parsed into its IE tree and 1-4 mutations are applied - header flags / length / type / SEID / sequence at boundary values, IE length +-, truncation at any offset, IE type substitution (also vendor-specific), "+
 			"nested IE corruption, value bytes set to boundary patterns, mandatory IE removal, duplication, reordering, self-nesting; (2) raw: arbitrary byte strings (mostly short, up to 64 KiB) with and without a plausible header; 1-3 such datagrams per case, from associated and never-associated sockets; "+
 			"each case runs with the no-op driver and with the real gtp5g driver on the simulated kernel. Oracle: the fatal-exit hook has not fired, no goroutine of the server died, a Heartbeat Request is answered afterwards, and the witness session (never addressed by an offending datagram) still answers an empty Modification "+
@@ -222,6 +222,14 @@ func baseMessages(nodeID string, seids []uint64) [][]byte {
 		message.NewSessionReportResponse(0, 0, 0, 23, 0, ie.NewCause(ie.CauseSessionContextNotFound)),
 		message.NewHeartbeatResponse(24, ts),
 		message.NewSessionEstablishmentRequest(0, 0, 0, 25, 0, ie.NewNodeID("", "", "smf.example.org"), ie.NewFSEID(0x98, nil, net.ParseIP("2001:db8::1"))),
+		// responses (15-20): the UPF only ever waits for Session Report Responses
+		message.NewSessionReportResponse(0, 0, sid(1), 26, 0, ie.NewCause(ie.CauseRequestAccepted), ie.NewOffendingIE(ie.PDRID),
+			ie.NewUpdateBARWithinSessionReportResponse(ie.NewBARID(1), ie.NewDownlinkDataNotificationDelay(50*time.Millisecond), ie.NewSuggestedBufferingPacketsCount(3)), ie.NewPFCPSRRspFlags(1)),
+		message.NewSessionReportResponse(0, 0, sid(0), 27, 0, ie.NewCause(ie.CauseRequestRejected)),
+		message.NewSessionModificationResponse(0, 0, sid(0), 28, 0, ie.NewCause(ie.CauseRequestAccepted)),
+		message.NewSessionEstablishmentResponse(0, 0, sid(0), 29, 0, ie.NewNodeID(nodeID, "", ""), ie.NewCause(ie.CauseRequestAccepted), ie.NewFSEID(0x99, net.ParseIP(nodeID), nil)),
+		message.NewAssociationSetupResponse(30, ie.NewNodeID(nodeID, "", ""), ie.NewCause(ie.CauseRequestAccepted), ts),
+		message.NewSessionDeletionResponse(0, 0, sid(0), 31, 0, ie.NewCause(ie.CauseRequestAccepted)),
 	}
 	var out [][]byte
 	for _, m := range ms {
@@ -440,7 +448,10 @@ type Case struct {
 	Driver   string `json:"driver"`   // empty | gtp5g
 	Sessions int    `json:"sessions"` // sessions of node 0 established in the prefix
 	Deleted  int    `json:"deleted"`
-	Msgs     []*Msg `json:"msgs"`
+	// Outstanding: so many Session Report Requests of the UPF's own (sequence numbers 0, 1, ... to node 0) are waiting for their
+	// response when the offending datagrams arrive, so that a response datagram with such a number reaches the response handler
+	Outstanding int    `json:"outstanding,omitempty"`
+	Msgs        []*Msg `json:"msgs"`
 }
 
 type result struct {
@@ -449,6 +460,8 @@ type result struct {
 	types         []string
 	excluded      string
 	emptyDatagram bool
+	outstanding   int
+	matched       int // response datagrams that met a waiting request of the UPF's
 }
 
 func run(c Case) (res result) {
@@ -457,7 +470,7 @@ func run(c Case) (res result) {
 	var st *stack.Stack
 	var err error
 	if c.Driver == "gtp5g" {
-		f, err = fullstack.NewFull(fullstack.FullOpts{Nodes: 2})
+		f, err = fullstack.NewFull(fullstack.FullOpts{Nodes: 2, Gtpu: true}) // buffered packets of the prefix reports may be released: the driver needs its GTP-U socket
 		if err != nil {
 			panic("infrastructure: " + err.Error())
 		}
@@ -520,6 +533,20 @@ func run(c Case) (res result) {
 	for i := 0; i < c.Deleted && i < len(seids); i++ {
 		step(stack.Op{Kind: "del", Peer: 0, Sess: -1, Raw: seids[i]})
 	}
+	if live := seids[min(c.Deleted, len(seids)):]; len(live) > 0 {
+		for i := 0; i < c.Outstanding; i++ {
+			op := stack.Op{Kind: "report", Sess: -1, Raw: live[i%len(live)], URRs: []uint32{1}, Trig: 2}
+			if i%2 == 1 {
+				op = stack.Op{Kind: "report", Sess: -1, Raw: live[i%len(live)], DLDR: true, PDR: 2, Action: 0x0c, Payload: []byte{0x45, 0, 0, 20}}
+			}
+			if o := step(op); o.Dead != nil {
+				res.v = vcore.Violatef(o.Dead.Key, "prefix: report: UPF fatal exit")
+				return
+			}
+			res.outstanding += len(r.Pending[0])
+			r.Pending[0] = nil
+		}
+	}
 	var witnessRules []simkernel.RuleKey
 	if f != nil {
 		for _, k := range f.D.K.Keys() {
@@ -537,6 +564,13 @@ func run(c Case) (res result) {
 		if pm, err := message.Parse(b); err == nil {
 			res.parsed++
 			res.types = append(res.types, pm.MessageTypeName())
+			if strings.HasSuffix(pm.MessageTypeName(), "Response") && m.From < 100 {
+				for _, e := range st.Srv.VerifTxTable() {
+					if e.Addr == st.Sock(m.From).Addr.String() && e.Seq == pm.Sequence() {
+						res.matched++
+					}
+				}
+			}
 			if pm.SEID() == witness && b[0]&1 != 0 {
 				res.excluded = "addresses-witness"
 			}
@@ -615,6 +649,9 @@ func account(c Case, r result) {
 	}
 	if r.emptyDatagram {
 		vcore.E.Class("empty_datagram")
+	}
+	if r.matched > 0 {
+		vcore.E.Class("response_met_a_waiting_request")
 	}
 	if r.parsed > 0 {
 		vcore.E.Class("reached_handlers")
@@ -725,6 +762,9 @@ func TestC07(t *testing.T) {
 	vcore.Check(t, vcore.N(1500, 12000), func(rt *rapid.T) {
 		c := Case{Sessions: rapid.IntRange(0, 3).Draw(rt, "sessions")}
 		c.Deleted = rapid.IntRange(0, c.Sessions).Draw(rt, "deleted")
+		if c.Sessions > c.Deleted && rapid.Bool().Draw(rt, "has_outstanding") {
+			c.Outstanding = rapid.IntRange(1, 3).Draw(rt, "outstanding")
+		}
 		// UP SEIDs are issued 1 (witness), 2, 3, ... on a fresh server
 		var seids []uint64
 		for i := 0; i < c.Sessions; i++ {
@@ -738,9 +778,16 @@ func TestC07(t *testing.T) {
 			bases := baseMessages(nodeIDPlaceholder, seids)
 			// session-level requests carry most of the handler logic: pick them three times as often
 			pickFrom := []int{0, 1, 2, 3, 4, 5, 6, 7, 7, 7, 8, 8, 8, 9, 9, 9, 10, 11, 12, 13, 14}
-			b := bases[pickFrom[rapid.IntRange(0, len(pickFrom)-1).Draw(rt, "base")]]
-			m := fromBytes(b)
+			if c.Outstanding > 0 {
+				pickFrom = append(pickFrom, 11, 11, 12, 12, 13, 15, 15, 15, 16, 16, 17, 18, 19, 20)
+			}
+			bi := pickFrom[rapid.IntRange(0, len(pickFrom)-1).Draw(rt, "base")]
+			m := fromBytes(bases[bi])
 			m.From = from
+			if c.Outstanding > 0 && (bi >= 15 || (bi >= 11 && bi <= 13)) && rapid.IntRange(0, 4).Draw(rt, "matching") != 0 {
+				// a response from the node's own socket carrying the number of a request that is waiting for one
+				m.From, m.Seq = 0, uint32(rapid.IntRange(0, c.Outstanding-1).Draw(rt, "rspseq"))
+			}
 			k := rapid.IntRange(1, 4).Draw(rt, "nmut")
 			for j := 0; j < k; j++ {
 				mutate(rt, m, 1)
